@@ -36,6 +36,8 @@ static const Scenario kScenarios[] = {
             "ddsrc s in", "x out", { { "dd", "", 0, "ninja_dyndep_version = 1\nbuild out | out.imp: dyndep | h2\n" }, { "h2", "", KEEP_IF_SAME | HALVE, NULL }, { "out", "h2", 0, NULL }, { NULL } } },
   /* 11 */ { "dyndep_static_consumer_oo", { RULES "rule mkdd\n  command = scan $in > $out\nbuild dd: mkdd ddsrc\nbuild h2: gen s\nbuild out: cc in || dd\n  dyndep = dd\nbuild x: cc out.imp || dd\n", NULL, NULL },
             "ddsrc s in", "x out", { { "dd", "", 0, "ninja_dyndep_version = 1\nbuild out | out.imp: dyndep | h2\n" }, { "h2", "", KEEP_IF_SAME | HALVE, NULL }, { "out", "h2", 0, NULL }, { NULL } } },
+  /* 12 */ { "restat_phony", { RULES "build gen.h: gen schema\nbuild lib: phony gen.h\nbuild hdrs: phony lib\nbuild x.out: cc x.in\nbuild y.out: cc y.in || hdrs\nbuild all: phony hdrs x.out y.out\n", NULL, NULL },
+            "schema x.in y.in", "all", { { "gen.h", "", KEEP_IF_SAME | HALVE, NULL }, { NULL } } },
 };
 #ifndef SCENARIO
 #define SCENARIO 0
